@@ -177,6 +177,8 @@ pub mod ss {
         &&& pool_inv(g, bs)
         &&& pool_known(g, bs)
         &&& count_inv(g, bs)
+        &&& first_key(pools_of(bs), Seq::<char>::empty()) >= 0
+        &&& st_of(bs).len() < 0x7fff_ffff_ffff_0000
     }
     pub open spec fn in_some_queue(bs: BuildStates, id: BuildId) -> bool {
         exists|j: int| 0 <= j < pools_of(bs).len() && (#[trigger] pools_of(bs)[j]).1.queued@.contains(id)
@@ -261,6 +263,192 @@ pub mod ss {
                 && pools_of(b1)[j].1.depth == pools_of(b0)[j].1.depth
                 && pools_of(b1)[j].1.running == pools_of(b0)[j].1.running
                 && pools_of(b1)[j].1.queued@ == (if j == pi { pools_of(b0)[j].1.queued@.drop_first() } else { pools_of(b0)[j].1.queued@ })
+    }
+
+    // --- bs_inv is preserved by every legal transition (the heart of C01 / C04 / C19)
+    pub proof fn lemma_count_ext(st: Seq<BuildState>, p: spec_fn(int, BuildState) -> bool, q: spec_fn(int, BuildState) -> bool)
+        requires forall|i: int| 0 <= i < st.len() ==> p(i, st[i]) == q(i, st[i])
+        ensures count(st, p) == count(st, q)
+        decreases st.len()
+    { if st.len() > 0 { lemma_count_ext(st.drop_last(), p, q); } }
+
+    pub open spec fn set_ok(g: Graph, b0: BuildStates, id: BuildId, state: BuildState) -> bool {
+        let i = ix(id);
+        let prev = st_of(b0)[i];
+        let pi = pool_ix(g, b0, i);
+        &&& i < st_of(b0).len()
+        &&& step_ok(prev, state)
+        &&& (state == BuildState::Ready ==> producers_done(g, st_of(b0), i))
+        &&& (prev == BuildState::Ready ==> !b0.ready@.contains(id))
+        &&& (prev == BuildState::Queued ==> !in_some_queue(b0, id))
+        &&& (state == BuildState::Running ==> pi >= 0 && (pools_of(b0)[pi].1.depth == 0 || pools_of(b0)[pi].1.running < pools_of(b0)[pi].1.depth))
+    }
+    /// the local precondition of BuildStates::set follows from the invariant
+    pub proof fn lemma_set_pre(g: Graph, b0: BuildStates, id: BuildId, state: BuildState)
+        requires bs_inv(g, b0), set_ok(g, b0, id, state)
+        ensures set_pre(b0, id, gs::builds(g)[ix(id)], state)
+    {
+        let i = ix(id);
+        let st = st_of(b0);
+        let prev = st[i];
+        let build = gs::builds(g)[i];
+        assert forall|k: int| 0 <= k < 6 implies (#[trigger] b0.counts.0@[k]) < 0x7fff_ffff_ffff_fff0 by {
+            lemma_count_bound(st, counted(g, state_of_idx(k)));
+        }
+        lemma_count_bound(st, is_pending());
+        if prev == BuildState::Running {
+            let pi = pool_ix(g, b0, i);
+            assert(pi >= 0);
+            lemma_first_key(pools_of(b0), pool_name(build));
+            lemma_count_pos(st, running_in(g, b0, pi), i);
+        }
+        if state == BuildState::Running {
+            let pi = pool_ix(g, b0, i);
+            lemma_first_key(pools_of(b0), pool_name(build));
+            lemma_count_bound(st, running_in(g, b0, pi));
+        }
+        if prev != BuildState::Unknown && !phony(build) {
+            assert(state_of_idx(idx_of(prev)) == prev);
+            lemma_count_pos(st, counted(g, prev), i);
+        }
+        if (state == BuildState::Done || state == BuildState::Failed) && prev != BuildState::Unknown {
+            lemma_count_pos(st, is_pending(), i);
+        }
+    }
+    pub proof fn lemma_inv1_step(g: Graph, st0: Seq<BuildState>, i: int, state: BuildState)
+        requires inv1(g, st0), 0 <= i < st0.len(), step_ok(st0[i], state), gs::wf_graph(g), st0.len() == gs::builds(g).len(),
+            state == BuildState::Ready ==> producers_done(g, st0, i),
+        ensures inv1(g, st0.update(i, state))
+    {
+        let st1 = st0.update(i, state);
+        assert forall|b: int| 0 <= b < st1.len() && rank(#[trigger] st1[b]) >= 2 implies producers_done(g, st1, b) by {
+            // b's producers were done before (b's rank was >= 2 before, or b == i becoming Ready)
+            if b == i {
+                if rank(st0[i]) >= 2 { assert(producers_done(g, st0, b)); }
+            } else {
+                assert(st1[b] == st0[b]);
+                assert(producers_done(g, st0, b));
+            }
+            assert(producers_done(g, st0, b));
+            let ins = gs::ordering_ins(gs::builds(g)[b]);
+            assert forall|j: int| 0 <= j < ins.len() implies producer_done(g, st1, #[trigger] ins[j]) by {
+                assert(producer_done(g, st0, ins[j]));
+                match gs::files(g)[ix(ins[j])].input {
+                    Some(p) => {
+                        // st0[p] == Done and no step leaves Done
+                        if ix(p) == i { assert(st0[i] == BuildState::Done); assert(false); }
+                    }
+                    None => {}
+                }
+            }
+        }
+    }
+    pub proof fn lemma_pool_ix_same(g: Graph, b0: BuildStates, b1: BuildStates)
+        requires pools_of(b1).len() == pools_of(b0).len(),
+            forall|j: int| 0 <= j < pools_of(b0).len() ==> (#[trigger] pools_of(b1)[j]).0 == pools_of(b0)[j].0
+        ensures forall|b: int| pool_ix(g, b1, b) == pool_ix(g, b0, b),
+            first_key(pools_of(b1), Seq::<char>::empty()) == first_key(pools_of(b0), Seq::<char>::empty()),
+    {
+        assert forall|b: int| pool_ix(g, b1, b) == pool_ix(g, b0, b) by {
+            assert forall|j: int| 0 <= j < pools_of(b0).len() implies pools_of(b0)[j].0@ == pools_of(b1)[j].0@ by { let _ = pools_of(b1)[j]; }
+            lemma_first_key_keys(pools_of(b0), pools_of(b1), pool_name(gs::builds(g)[b]));
+        }
+        assert forall|j: int| 0 <= j < pools_of(b0).len() implies pools_of(b0)[j].0@ == pools_of(b1)[j].0@ by { let _ = pools_of(b1)[j]; }
+        lemma_first_key_keys(pools_of(b0), pools_of(b1), Seq::<char>::empty());
+    }
+    pub proof fn lemma_queue_ok_step(g: Graph, b0: BuildStates, b1: BuildStates, q: Seq<BuildId>, want: BuildState, pool: int, id: BuildId, state: BuildState)
+        requires queue_ok(g, b0, q, want, pool), ix(id) < st_of(b0).len(),
+            st_of(b1) == st_of(b0).update(ix(id), state),
+            forall|b: int| pool_ix(g, b1, b) == pool_ix(g, b0, b),
+            !q.contains(id) || state == want,
+        ensures queue_ok(g, b1, q, want, pool)
+    {
+        assert forall|k: int| 0 <= k < q.len() implies ix(#[trigger] q[k]) < st_of(b1).len() && st_of(b1)[ix(q[k])] == want
+            && (pool >= 0 ==> pool_ix(g, b1, ix(q[k])) == pool) by {
+            if q[k] == id { assert(q.contains(id)); }
+            else {
+                assert(q[k].0 != id.0);
+                assert(ix(q[k]) != ix(id));
+            }
+        }
+    }
+    pub proof fn lemma_counts_step(g: Graph, b0: BuildStates, b1: BuildStates, id: BuildId, state: BuildState)
+        requires bs_inv(g, b0), set_ok(g, b0, id, state),
+            st_of(b1) == st_of(b0).update(ix(id), state),
+            b1.total_pending as int == b0.total_pending + b2i(st_of(b0)[ix(id)] == BuildState::Unknown) - b2i(state == BuildState::Done || state == BuildState::Failed),
+            b1.counts.0@ == counts_after(b0.counts.0@, st_of(b0)[ix(id)], state, phony(gs::builds(g)[ix(id)])),
+        ensures count_inv(g, b1), b1.counts.0@.len() == 6
+    {
+        let i = ix(id);
+        let st0 = st_of(b0);
+        let prev = st0[i];
+        let ph = phony(gs::builds(g)[i]);
+        lemma_count_update(st0, is_pending(), i, state);
+        assert forall|k: int| 0 <= k < 6 implies (#[trigger] b1.counts.0@[k]) as int == count(st_of(b1), counted(g, state_of_idx(k))) by {
+            lemma_count_update(st0, counted(g, state_of_idx(k)), i, state);
+            lemma_count_bound(st_of(b1), counted(g, state_of_idx(k)));
+            assert(b0.counts.0@[k] as int == count(st0, counted(g, state_of_idx(k))));
+            if prev != BuildState::Unknown { assert(state_of_idx(idx_of(prev)) == prev); }
+            assert(state_of_idx(idx_of(state)) == state);
+        }
+    }
+    pub proof fn lemma_set_preserves(g: Graph, b0: BuildStates, b1: BuildStates, id: BuildId, state: BuildState, pushq: bool)
+        requires bs_inv(g, b0), set_ok(g, b0, id, state),
+            effect(b0, b1, id, gs::builds(g)[ix(id)], state, pushq),
+            pushq ==> state == BuildState::Queued,
+        ensures bs_inv(g, b1)
+    {
+        let i = ix(id);
+        let st0 = st_of(b0);
+        let st1 = st_of(b1);
+        let prev = st0[i];
+        let build = gs::builds(g)[i];
+        let pi = pool_ix(g, b0, i);
+        lemma_inv1_step(g, st0, i, state);
+        lemma_pool_ix_same(g, b0, b1);
+        lemma_counts_step(g, b0, b1, id, state);
+        lemma_first_key(pools_of(b0), pool_name(build));
+        // ready queue
+        if state == BuildState::Ready {
+            lemma_queue_ok_step(g, b0, b1, b0.ready@, BuildState::Ready, -1, id, state);
+            gs::lemma_no_dup_push(b0.ready@, id);
+            assert forall|k: int| 0 <= k < b1.ready@.len() implies ix(#[trigger] b1.ready@[k]) < st1.len() && st1[ix(b1.ready@[k])] == BuildState::Ready by {
+                if k < b0.ready@.len() { assert(b1.ready@[k] == b0.ready@[k]); }
+            }
+        } else {
+            if b0.ready@.contains(id) {
+                let k = choose|k: int| 0 <= k < b0.ready@.len() && b0.ready@[k] == id;
+                assert(st0[ix(b0.ready@[k])] == BuildState::Ready);
+            }
+            lemma_queue_ok_step(g, b0, b1, b0.ready@, BuildState::Ready, -1, id, state);
+        }
+        // pools
+        assert forall|j: int| 0 <= j < pools_of(b1).len() implies
+            (#[trigger] pools_of(b1)[j]).1.running as int == count(st1, running_in(g, b1, j))
+            && (pools_of(b1)[j].1.depth > 0 ==> pools_of(b1)[j].1.running <= pools_of(b1)[j].1.depth)
+            && queue_ok(g, b1, pools_of(b1)[j].1.queued@, BuildState::Queued, j) by {
+            let _ = pools_of(b0)[j];
+            lemma_count_update(st0, running_in(g, b0, j), i, state);
+            lemma_count_ext(st1, running_in(g, b0, j), running_in(g, b1, j));
+            let q0 = pools_of(b0)[j].1.queued@;
+            if q0.contains(id) {
+                let k = choose|k: int| 0 <= k < q0.len() && q0[k] == id;
+                assert(st0[ix(q0[k])] == BuildState::Queued);
+                assert(in_some_queue(b0, id));
+            }
+            lemma_queue_ok_step(g, b0, b1, q0, BuildState::Queued, j, id, state);
+            if pushq && j == pi {
+                gs::lemma_no_dup_push(q0, id);
+                let q1 = pools_of(b1)[j].1.queued@;
+                assert forall|k: int| 0 <= k < q1.len() implies ix(#[trigger] q1[k]) < st1.len() && st1[ix(q1[k])] == BuildState::Queued
+                    && pool_ix(g, b1, ix(q1[k])) == j by {
+                    if k < q0.len() { assert(q1[k] == q0[k]); }
+                }
+            }
+        }
+        assert forall|b: int| 0 <= b < st1.len() && rank(#[trigger] st1[b]) == 4 implies pool_ix(g, b1, b) >= 0 by {
+            if b != i { assert(st1[b] == st0[b]); }
+        }
     }
     }
 }
